@@ -67,6 +67,8 @@ func VerifH_C12_LinearTransformations() {
 	}
 	vManyAndSequential(c)
 	vManyMixedLevels(c)
+	vLowerLevelP()
+	vDenseLargePrimes()
 	vCover("C12-lintrans-reached")
 }
 
@@ -164,4 +166,66 @@ func vManyMixedLevels(c *vCtx) {
 			}
 		}
 	}
+}
+
+// Two auxiliary primes, transformation and Galois keys at LevelP = 0: the baby-step rotations (hoisted, lazy) and the
+// giant steps work at the level of the key, with and without the baby-step giant-step algorithm.
+func vLowerLevelP() {
+	c := VerifSetup_CtxKind(vIsAlgebraic(), 1)
+	c.Kgen.GenSecretKey(c.Sk)
+	params := c.Params
+	t := params.PlaintextModulus()
+	level := params.MaxLevel()
+	r := params.RingQ().AtLevel(level)
+	cols := params.MaxSlots() >> 1
+	zero := 0
+	for _, ratio := range []int{1, -1} {
+		tag := "two-P-levelP0-ratio" + vItoa(ratio)
+		idx := []int{-3, 0, 1, 2, 4}
+		diags := map[int][]uint64{}
+		for _, d := range idx {
+			diags[d] = vDiag(d, cols, t)
+		}
+		lt := NewLinearTransformation(params, Parameters{DiagonalsIndexList: idx, LevelQ: level, LevelP: 0, Scale: params.NewScale(5),
+			LogDimensions: params.LogMaxDimensions(), LogBabyStepGiantStepRatio: ratio})
+		vAssert(Encode(c.Ecd, Diagonals[uint64](diags), lt) == nil, tag+"-Encode-no-error")
+		gks := c.Kgen.GenGaloisKeysNew(lt.GaloisElements(params), c.Sk, rlwe.EvaluationKeyParameters{LevelP: &zero})
+		eval := NewEvaluator(bgv.NewEvaluator(params, rlwe.NewMemEvaluationKeySet(nil, gks...)))
+		ct := vAtomCiphertext(c, level, "c", 3)
+		out := bgv.NewCiphertext(params, 1, level)
+		vAssert(eval.Evaluate(ct, lt, out) == nil, tag+"-Evaluate-no-error")
+		phase := vPhase(c, ct)
+		vCheckEncodedDiagonals(c, lt, diags, tag)
+		vAssertNoiseFree(r, vPhase(c, out), vExpected(c, lt, phase, level), 42, tag+"-phase-is-the-sum-of-diagonal-times-rotated-input")
+	}
+}
+
+// 61-bit primes (overflow margin 8) and a dense matrix (every diagonal) with one large giant-step group: the lazily
+// accumulated baby-step products must be reduced often enough (tracked-range obligations of the model; natively the
+// same harness runs with 64 columns, 16 diagonals per group).
+func vDenseLargePrimes() {
+	c := VerifSetup_CtxKind(vIsAlgebraic(), 2)
+	c.Kgen.GenSecretKey(c.Sk)
+	params := c.Params
+	t := params.PlaintextModulus()
+	level := params.MaxLevel()
+	r := params.RingQ().AtLevel(level)
+	cols := params.MaxSlots() >> 1
+	idx := make([]int, cols)
+	diags := map[int][]uint64{}
+	for d := range idx {
+		idx[d] = d
+		diags[d] = vDiag(d, cols, t)
+	}
+	tag := "dense-61-bit-primes"
+	lt := NewLinearTransformation(params, Parameters{DiagonalsIndexList: idx, LevelQ: level, LevelP: params.MaxLevelP(), Scale: params.NewScale(5),
+		LogDimensions: params.LogMaxDimensions(), LogBabyStepGiantStepRatio: 3})
+	vAssert(Encode(c.Ecd, Diagonals[uint64](diags), lt) == nil, tag+"-Encode-no-error")
+	gks := c.Kgen.GenGaloisKeysNew(lt.GaloisElements(params), c.Sk)
+	eval := NewEvaluator(bgv.NewEvaluator(params, rlwe.NewMemEvaluationKeySet(nil, gks...)))
+	ct := vAtomCiphertext(c, level, "c", 3)
+	out := bgv.NewCiphertext(params, 1, level)
+	vAssert(eval.Evaluate(ct, lt, out) == nil, tag+"-Evaluate-no-error")
+	phase := vPhase(c, ct)
+	vAssertNoiseFree(r, vPhase(c, out), vExpected(c, lt, phase, level), 62, tag+"-phase-is-the-sum-of-diagonal-times-rotated-input")
 }
